@@ -12,6 +12,18 @@ package transports
 //@ ghost field Transport.$discarded bool
 //@ ghost field Transport.$sid string
 
+// the registry of transport builders is filled once in init with the three builders and never written afterwards
+//@ func Transports()
+//@   trusted "package-level registry: filled in init with non-nil builders, never written afterwards"
+//@   pure
+//@   ensures forall k string :: maphas(result, k) ==> mapval(result, k) != nil
+//@ func TransportCtor.HandlesUpgrades()
+//@   opt stable
+//@   noeffect
+//@ func TransportCtor.New(ctx)
+//@   modifies *
+//@   ensures result != nil
+
 //@ func Transport.Name()
 //@   opt stable
 //@   noeffect
@@ -99,7 +111,12 @@ package transports
 
 // ---- polling -------------------------------------------------------------------------------------------
 //@ func (*polling).OnClose()
+//@   props C12
+//@   requires p != nil && p.Transport != nil
 //@   modifies *
+//@   ensures [C12.releasepoll] old(p.Transport.$writable) ==> calls((*polling).Send) == 1 && len(arg((*polling).Send, 1, packets)) == 1 && arg((*polling).Send, 1, packets)[0].Type == packet.NOOP
+//@   ensures [C12.nopoll]      !old(p.Transport.$writable) ==> calls((*polling).Send) == 0
+//@   ensures [C12.baseclose]   calls(Transport.OnClose) == 1
 //@ func (*polling).Send(packets)
 //@   props C12
 //@   requires p != nil && p.Transport != nil
